@@ -425,3 +425,31 @@ fn checked_add_and_sub_works() {
             .is_none()
     );
 }
+
+/// Verification hooks: read-only views of interpreter-internal state for external
+/// monitors. Off by default; adds no behaviour.
+#[cfg(feature = "verif-hooks")]
+impl<M, S, Tx, Ecal, V> Interpreter<M, S, Tx, Ecal, V> {
+    /// The VM's internal free balances as `(asset, value, memory offset)`, sorted by
+    /// asset id.
+    pub fn verif_balances(&self) -> alloc::vec::Vec<(AssetId, Word, usize)> {
+        let mut v: alloc::vec::Vec<_> = self
+            .balances
+            .state
+            .iter()
+            .map(|(a, b)| (*a, b.value(), b.offset()))
+            .collect();
+        v.sort();
+        v
+    }
+
+    /// Number of call frames currently on the VM's internal call stack.
+    pub fn verif_call_depth(&self) -> usize {
+        self.frames.len()
+    }
+
+    /// The contract ids the VM recorded as transaction inputs.
+    pub fn verif_input_contracts(&self) -> alloc::vec::Vec<fuel_types::ContractId> {
+        self.input_contracts.iter().copied().collect()
+    }
+}
